@@ -23,6 +23,7 @@ mod cmd_ext;
 mod cmd_level;
 mod cmd_manifest;
 mod cmd_entjson;
+mod cmd_ffi;
 
 /// Command families.  To add one: create src/cmd_xxx.rs with
 /// `pub fn dispatch(cmd: &str, v: &J) -> Option<Result<J, String>>`, add `mod cmd_xxx;` above
@@ -45,6 +46,7 @@ const FAMILIES: &[fn(&str, &J) -> Option<Result<J, String>>] = &[
     cmd_level::dispatch,
     cmd_manifest::dispatch,
     cmd_entjson::dispatch,
+    cmd_ffi::dispatch,
 ];
 
 fn dispatch(cmd: &str, v: &J) -> Result<J, String> {
